@@ -10,8 +10,13 @@ import (
 // table itself is checked under C56 with an arbitrary hash; here only its multimap behaviour is used.
 // Natively the real maphash runs (the property does not depend on the hash).
 func verifC48Hash(m *indexMap, id restic.ID) uint {
+	if verifC48OneBucket {
+		return 0 // every blob in the same bucket chain (a constant function is a valid hash function)
+	}
 	return uint(id[0]) & uint(len(m.buckets)-1)
 }
+
+var verifC48OneBucket bool
 
 // a blob ID "1".."hi" (one symbolic byte; IDs are compared only for equality)
 func verifC48ID(name string, hi byte) restic.ID {
@@ -249,8 +254,8 @@ func VerifC48_IntersectSub() {
 // bucket chain.
 func VerifC48_GrowWhileInUse() {
 	t := restic.DataBlob
+	verifC48OneBucket = true
 	mi := verifC48Index(t)
-	verifrt.Stub("(*internal/repository/index.indexMap).hash", func(*indexMap, restic.ID) uint { return 0 })
 	a := NewAssociatedSet[uint8](mi)
 	ref := &verifC48Ref{}
 	apply := func(max int, tag string) {
